@@ -32,6 +32,10 @@ impl FramesBody {
 	pub fn single(b: impl Into<Vec<u8>>) -> Self {
 		Self::new(vec![b.into()])
 	}
+	/// the same frames, but the body does not tell its length in advance (a client then cannot add a Content-Length)
+	pub fn unsized_frames(frames: Vec<Vec<u8>>) -> Self {
+		FramesBody { frames: frames.into_iter().map(Bytes::from).collect(), exact: None }
+	}
 }
 
 impl http_body::Body for FramesBody {
@@ -322,5 +326,45 @@ pub struct CounterIds(pub std::sync::atomic::AtomicU64);
 impl jsonrpsee_server::IdProvider for CounterIds {
 	fn next_id(&self) -> jsonrpsee_types::SubscriptionId<'static> {
 		jsonrpsee_types::SubscriptionId::Num(self.0.fetch_add(1, std::sync::atomic::Ordering::SeqCst))
+	}
+}
+
+// ---------------------------------------------------------------------------------------------
+// HTTP/2 (prior knowledge) client connection to a `Server::start` listener over loopback TCP: hyper's h2 path on both
+// sides (pseudo-headers instead of request line and Host, DATA frames instead of Content-Length / chunked framing).
+
+pub struct H2Conn {
+	sender: hyper::client::conn::http2::SendRequest<FramesBody>,
+	driver: tokio::task::JoinHandle<()>,
+}
+
+pub async fn h2_connect(addr: std::net::SocketAddr) -> Result<H2Conn, String> {
+	let io = tokio::net::TcpStream::connect(addr).await.map_err(|e| format!("connect: {e}"))?;
+	let (sender, conn) = hyper::client::conn::http2::handshake(hyper_util::rt::TokioExecutor::new(), hyper_util::rt::TokioIo::new(io)).await.map_err(|e| format!("h2 handshake: {e}"))?;
+	let driver = tokio::spawn(async move {
+		let _ = conn.await;
+	});
+	Ok(H2Conn { sender, driver })
+}
+
+impl H2Conn {
+	/// One request on a stream of its own. The URI must be absolute (it becomes :scheme / :authority / :path).
+	pub async fn request(&mut self, req: HttpRequest<FramesBody>) -> Result<HttpOut, String> {
+		self.sender.ready().await.map_err(|e| format!("h2 not ready: {e}"))?;
+		let resp = self.sender.send_request(req).await.map_err(|e| format!("h2 request: {e:?}"))?;
+		let status = resp.status().as_u16();
+		let content_type = resp.headers().get("content-type").and_then(|v| v.to_str().ok()).map(|s| s.to_string());
+		// a stream reset after the response head (the server stopped reading an oversized body) still leaves the status
+		let body = match resp.into_body().collect().await {
+			Ok(b) => b.to_bytes().to_vec(),
+			Err(_) => Vec::new(),
+		};
+		Ok(HttpOut { status, content_type, body })
+	}
+}
+
+impl Drop for H2Conn {
+	fn drop(&mut self) {
+		self.driver.abort();
 	}
 }
